@@ -288,7 +288,7 @@ fn gen_valid(rng: &mut Rng, big_arrays: bool) -> GenLib {
                 }
             };
             // mostly identifiers; a third end in letters outside ASCII (I_10µA, Entrée, RΩ): the name of the net is the label's text in lower case
-            let string = format!("{}{}_{}{}", rng.pick(&["Net", "VDD", "clk", "n", "OUT"]), i, k, rng.pick(&["", "", "", "", "µA", "É", "Ω", "_шина", "é1"]));
+            let string = format!("{}{}_{}{}", rng.pick(&["Net", "VDD", "clk", "n", "OUT"]), i, k, rng.pick(&["", "", "", "", "µA", "É", "Ω", "_шина", "é1", "_10k\u{2126}", "\u{212A}elvin", "\u{212B}ngstr", "Stra\u{1E9E}e", "\u{130}stanbul", "\u{2126}"]));
             s.elems.push(GdsTextElem { string: string.clone(), layer, texttype: rng.range(0, 5) as i16, xy: gpt(p), ..Default::default() }.into());
             texts.push((string, layer, p));
         }
